@@ -135,6 +135,12 @@ Judge(e) ==
        [] e.op = "Equal" ->
            \* result is judged by TraceNode (C13); here only the frame (C11)
            Frame(e, {})
+       [] e.op = "CopyElem" ->
+           \* copies of single elements: same content, equal to the source, no storage in common; nothing else changes
+           UNION {(IF c.content THEN {} ELSE {"copy." \o c.kind \o ".content"})
+                  \cup (IF c.equal THEN {} ELSE {"copy." \o c.kind \o ".equal"})
+                  \cup (IF c.shared THEN {"copy." \o c.kind \o ".shared"} ELSE {}) : c \in Rng(e.copies)}
+           \cup Frame(e, {})
        [] e.op = "Query" ->
            \* any other read-only call: only the frame is judged (registers, and for a serialization the rest of the document)
            Frame(e, {}) \cup (IF "docchanged" \in DOMAIN e /\ e.docchanged # "" THEN {"frame.Query.doc-" \o e.docchanged} ELSE {})
